@@ -339,6 +339,11 @@ def main(tier):
             for pos in range(0, len(lines) + 1):
                 for j in JUNK:
                     items.append((sid, lines, pos, j, base[sid]['outs'], base[sid]['dump']))
+            # lines for the stream's own client id BEFORE the server has announced it are junk as well (a withdrawn or never announced id)
+            first = lines[0].split(b' ')
+            if len(first) > 1 and first[1] == b'C':
+                for j in (b'%s D\n', b'%s T\n', b'%s N early.host\n', b'%s H\n', b'%s Z foo\n', b'%s P :+x a b\n'):
+                    items.append((sid, lines, 0, j % first[0], base[sid]['outs'], base[sid]['dump']))
         njunk = 0
         for r in tp.imap(_junk_job, items, chunksize=8):
             if 'harness_error' in r:
@@ -409,6 +414,32 @@ def e3_pass(run, b, streams, base, tier):
                 if got != want:
                     run.violation('C08.e3-chunks', 'unmodified daemon: stream %d delivered in two writes (cut at %d) gives different output' % (sid, c1),
                                   {'engine': 'E3', 'conf': conf, 'bytes': data.decode('latin-1'), 'cut': c1, 'got': got, 'want': want}, dedup='e3chunkdiff')
+    # a burst of many short lines: delivered in ONE write (one read() hands the daemon hundreds of complete lines), in 1000-byte
+    # and 97-byte pieces, and line by line - the daemon's output must be the same and it must exit cleanly at end of input
+    lines = []
+    for k in range(60):
+        i = 100 + k
+        lines += ['%d C 10.0.%d.%d %d 10.9.9.9 6667' % (i, k // 200, k % 200 + 1, 2000 + k), '%d H' % i, '-1 X drone.svc %x_%x :OK' % (i, k + 1), '%d T' % i]
+    data = ('\n'.join(lines) + '\n-1 ? stats\n').encode()
+    variants = {'one write': [data], '1000-byte pieces': [data[i:i + 1000] for i in range(0, len(data), 1000)], '97-byte pieces': [data[i:i + 97] for i in range(0, len(data), 97)],
+                'line by line': [l + b'\n' for l in data.split(b'\n') if l]}
+    outs = {}
+    for name, chunks in variants.items():
+        rc, out, err, ok = e3.run_stream(conf, chunks, b=b, gap=0.002 if name != 'one write' else 0.0, timeout=60)
+        n += 1
+        outs[name] = [common.mask_time(l) for l in out if not l.startswith('S ')]
+        if rc != 0 or 'ERROR:' in err:
+            run.violation('C08.e3-burst', 'unmodified daemon, %d lines delivered as %s: rc=%s %s' % (len(lines), name, rc, err.strip().splitlines()[:2]),
+                          {'engine': 'E3', 'conf': conf, 'bytes': data.decode('latin-1')[:2000], 'delivery': name}, dedup='burst-rc|' + name)
+    ref = outs['line by line']
+    if sum(1 for l in ref if l.startswith('D ')) != 60 and not run.violations:
+        raise common.HarnessError('burst: the line-by-line reference run did not accept the 60 clients: %r' % ref[-5:])
+    for name, o in outs.items():
+        if o != ref:
+            k = next((i for i in range(min(len(o), len(ref))) if o[i] != ref[i]), min(len(o), len(ref)))
+            run.violation('C08.e3-burst', 'unmodified daemon: %d lines delivered as %s give different output than line by line (first difference at output line %d: %r vs %r; %d vs %d lines)'
+                          % (len(lines), name, k, o[k] if k < len(o) else None, ref[k] if k < len(ref) else None, len(o), len(ref)),
+                          {'engine': 'E3', 'conf': conf, 'bytes': data.decode('latin-1')[:2000], 'delivery': name}, dedup='burst-diff|' + name)
     return n
 
 def replay(obj):
